@@ -98,9 +98,9 @@ CHECKS = {
         ref="DESIGN.md 3.6, 4 C04",
     ),
     "C16": dict(
-        engine="RandomGen+RandomWindow",
+        engine="RandomGen+RandomWindow+RandomGenAttrs",
         technique="TLC model checking of spec/RandomGen.tla (generator re-seeding and RandomReader / from_random size bookkeeping, random stream abstracted to tokens) and spec/RandomWindow.tla (cylindrical equal-area sampling on an exact rational grid); every enumerated history replayed on the real BoxRandoms / HealPixRandoms / RandomReader / Catalog.from_random with bit-exact comparison against a brand-new generator; recorded operation logs validated by TLC (RandomGenTrace)",
-        text="TLC checks ExactSize, ReseedAtPassStart, Reproducible, ReseedRestores, SeedControlled, CreateNeverRejected and termination over all histories of <=4 (quick) / <=5 (thorough) public operations and over a size sweep of N x chunksize x patch_num x probe_size; seven named deviations each yield a counterexample. Every history (9k / 207k) is executed on the real library; each output is compared bit-exactly with its token realised on a brand-new generator; exact count, footprint and joint (weight, redshift) source row are the predicates. 100 grid windows (poles, RA<0, RA>360) are drawn and compared with TLC's exact cell fractions at 6 sigma; random long operation logs are validated by RandomGenTrace, a corrupted log is rejected. The seed value is part of the case analysis (real seed 0 is a seed, distinct from 'no seed'): every history starts with the construction, reseed(s) for 0 and non-zero seeds and reseed() occur at every point (SeedAsRequested, ConstructNeverRejected); an exception of a public constructor or call on a valid input is a violation, never a crash of the check.",
+        text="TLC checks ExactSize, ReseedAtPassStart, Reproducible, ReseedRestores, SeedControlled, CreateNeverRejected and termination over all histories of <=4 (quick) / <=5 (thorough) public operations and over a size sweep of N x chunksize x patch_num x probe_size; seven named deviations each yield a counterexample. Every history (9k / 207k) is executed on the real library; each output is compared bit-exactly with its token realised on a brand-new generator; exact count, footprint and joint (weight, redshift) source row are the predicates. 100 grid windows (poles, RA<0, RA>360) are drawn and compared with TLC's exact cell fractions at 6 sigma; random long operation logs are validated by RandomGenTrace, a corrupted log is rejected. The seed value is part of the case analysis (real seed 0 is a seed, distinct from 'no seed'): every history starts with the construction, reseed(s) for 0 and non-zero seeds and reseed() occur at every point (SeedAsRequested, ConstructNeverRejected); an exception of a public constructor or call on a valid input is a violation, never a crash of the check. RandomGenAttrs.tla models the joint attribute draw over the container of the supplied samples (numpy array, pandas Series with default / permuted index, mixed containers); all (container x index permutation x drawn index) cases are evaluated on the real generators with the by-position joint-row predicate, and the container is a dimension of every generator configuration.",
         note="'Uniformly distributed in area' is statistical: decided only against gross deviations (6 sigma on 1e5/1e6 points per window), fine-scale uniformity and independence are not decided. numpy's Generator is trusted to be a deterministic function of its SeedSequence; harness/fakehealpy.py stands in for healpy (not installed) and is self-tested.",
         ref="DESIGN.md 3.3, 4 C16",
     ),
